@@ -55,7 +55,7 @@ def one(name):
     if checks_only: conf = fresh.get("confirmed_by_me", conf); old["confirmed_at_repo_head"] = fresh.get("confirmed_at_repo_head")
     if confirm_only: checks = dict(fresh.get("checks_quick_tier", {}))
     prop = old["breaks_property"]
-    rnd = "r7" if name.startswith("R7-") else "r6" if name.startswith("R6-") else "r5" if name.startswith("R5-") else "r4" if name.startswith("R4-") else "r3" if name.startswith("R3-") else "r2" if name.startswith("R2-") else "r1"
+    rnd = "r8" if name.startswith("R8-") else "r7" if name.startswith("R7-") else "r6" if name.startswith("R6-") else "r5" if name.startswith("R5-") else "r4" if name.startswith("R4-") else "r3" if name.startswith("R3-") else "r2" if name.startswith("R2-") else "r1"
     h = hist.get(rnd, {}).get(prop, ["", ""])
     meta = {
         "name": name, "round": int(rnd[1]), "breaks_property": prop, "summary": old["summary"], "needs_to_manifest": old["needs_to_manifest"],
